@@ -353,6 +353,46 @@ def sps_loop_cases():
                 yield cls, hevc_seq_header(HEVC_VPS, sps, HEVC_PPS, enhanced=True)
 
 
+def boundary_cases():
+    """(class, history): an rtsp consumer in PLAY and waiting for a GOP start (out_wait_key_frame_flag) while the publisher
+    sends nal units whose first bytes are the ones rtprtcp.IsAvcBoundary / IsHevcBoundary index: STAP-A 24 (b[3]),
+    FU-A 28 (b[1]), hevc AP 48 / FU 49 (b[2]), in nal units of 1..5 bytes, in the audio body of g711 / opus too"""
+    cfgs = ["se=1,wk=1", ALL_ON]
+    inter = {"avc": bytes.fromhex("2701000000"), "hevc": bytes.fromhex("2c01000000"), "ehevc": bytes([0xa3]) + b"hvc1"}
+    pre = {"avc": PREAMBLE_AVC, "hevc": PREAMBLE_HEVC, "ehevc": PREAMBLE_EHEVC}
+    heads = {"avc": [0x18, 0x78, 0x1c, 0x7c, 0x5c, 0x05, 0x65, 0x67, 0x41, 0x00],
+             "hevc": [0x60, 0x61, 0x62, 0x63, 0x26, 0x40, 0x02, 0x00],
+             "ehevc": [0x60, 0x62, 0x26, 0x02]}
+    tails = [b"", b"\x00", b"\x85", b"\x00\x01", b"\x01\x93", b"\x00\x01\x65", b"\x01\x00\x07", b"\x00\x02\x67\x42", b"\x01\x93\xa6\x00"]
+    for codec in ("avc", "hevc", "ehevc"):
+        for h in heads[codec]:
+            for t in tails:
+                nal = bytes([h]) + t
+                for ci, cfg in enumerate(cfgs):
+                    if ci == 1 and len(t) not in (0, 2):
+                        continue
+                    # consumer joins after the key frame: it waits; the hostile nal; then a key frame releases it
+                    evs = pre[codec] + ["Js:5", P(9, 40, inter[codec] + avcc(nal)), P(9, 80, {"avc": AVC_IDR, "hevc": HEVC_IDR, "ehevc": EHEVC_KEYX}[codec])]
+                    yield "bcast-rtsp-boundary", cfg, evs
+                if len(t) in (0, 2, 3):
+                    # two consumers: one that sent DESCRIBE before the stream had a description, one in between
+                    evs = ["Js:5"] + pre[codec][:2] + ["Js:6"] + pre[codec][2:] + [P(9, 40, inter[codec] + avcc(bytes([0x41, 0x9a]), nal))]
+                    yield "bcast-rtsp-boundary", cfgs[0], evs
+        # the same bytes as the RTP body of an audio packet (g711 / opus are carried raw)
+        for a in (0x72, 0x82, 0xd2):
+            for h in heads["avc"][:5] + heads["hevc"][:4]:
+                for t in tails[:6]:
+                    evs = pre[codec][:1] + [P(8, 0, bytes([a, 0x55, 0x55]))] + pre[codec][2:] + ["Js:5", P(8, 40, bytes([a, h]) + t)]
+                    yield "bcast-rtsp-boundary-audio", cfgs[0], evs
+    # fragmented nal units (FU-A / hevc FU): start fragment of a key / non-key nal while the consumer waits
+    for codec, hs in (("avc", [0x65, 0x41, 0x67, 0x1c]), ("hevc", [0x26, 0x02, 0x40, 0x62])):
+        for h in hs:
+            for n in (1199, 1200, 1201, 2500):
+                nal = bytes([h, 0x01]) + bytes((i * 7) & 0xff for i in range(n - 2))
+                evs = pre[codec] + ["Js:5", P(9, 40, inter[codec] + avcc(nal)), P(9, 60, inter[codec] + avcc(bytes([hs[1], 1, 2])))]
+                yield "bcast-rtsp-boundary-fu", cfgs[0], evs
+
+
 def drop_empty(evs):
     """the remuxers sit behind the group's empty-payload gate"""
     return [e for e in evs if not e.endswith(":-")]
@@ -371,6 +411,9 @@ def gen_cases(tier, rng):
         yield bcast(ALL_ON, [P(9, 0, b), P(9, 40, AVC_P)], "bcast-sps-loops-" + cls)
         if not quick:
             yield bcast("re=1", [P(9, 0, AVC_SH2[:5] + b"\x00" * 3), P(9, 0, b)], "bcast-sps-loops-" + cls)
+    # (0c) rtsp consumers waiting for a GOP start while the nal units the boundary classifiers index arrive
+    for cls, cfg, evs in boundary_cases():
+        yield bcast(cfg, evs, cls)
     # (1) helpers of t_rtmp.go, exhaustive on short payloads
     for t, b in short_payloads():
         yield Case("c05.cls %d %s" % (t, hex_tok(b)), cls="cls-short")
